@@ -150,7 +150,8 @@ func init() {
 		if thorough {
 			n = 50000
 		}
-		return []CaseSet{genCrcRows(), genCrcSplits(r, n), genCrcMany(r, 16)},
-			"all 65536 register states x 256 bytes through dyncrc16.New/Write/Sum16 and Checksum (one case = one state row of 256 transitions), plus random byte strings under random write partitions with Sum/Reset, and 2 … 1025 hashes alive at the same time, each fed in two writes with other hashes created and fed in between; distinct = distinct result rows", true
+		return []CaseSet{genCrcRows(), genCrcSplits(r, n), genCrcMany(r, 16), genCrcBig(r, thorough)},
+			"all 65536 register states x 256 bytes through dyncrc16.New/Write/Sum16 and Checksum (one case = one state row of 256 transitions), plus random byte strings under random write partitions with Sum/Reset, 2 … 1025 hashes alive at the same time, each fed in two writes with other hashes created and fed in between, and generated buffers of 4 KiB … 2 MiB (even and odd lengths around the powers of two) in one Write / Checksum call and in pieces, with the residue rule; Go-side: every length around every power of two up to 2 MiB against a bitwise reference; distinct = distinct result rows", true
 	}
+	propPost["C14"] = crcLengths
 }
